@@ -197,11 +197,15 @@ DecInner(b) ==
 (* RFC 9147 4 and 4.1): records are laid end to end; each one is           *)
 (* delimited by the length in its own header.  A record whose header or    *)
 (* declared fragment does not fit is truncated input: nothing of it is     *)
-(* consumed and the result is an error.  A fragment is never empty         *)
-(* (RFC 5246 6.2.1: no zero-length handshake/alert/ccs fragments; a        *)
-(* protected record always carries a tag/MAC).                             *)
+(* consumed and the result is an error.  The splitter does not judge the   *)
+(* fragment: an empty one (RFC 5246 6.2.1 allows zero-length application   *)
+(* data, and RecordLayer.Marshal produces it) is a record like any other,  *)
+(* wherever it stands in the datagram.  MinFragment = 1 is the pinned      *)
+(* tree: an empty fragment was split off anywhere but at the end of the    *)
+(* datagram, where the whole datagram was refused (repaired by a fix:      *)
+(* commit, see known_findings.jsonl).                                      *)
 
-MinFragment == 1
+MinFragment == IF Broken = "unpack_min1" THEN 1 ELSE 0
 
 \* result [ok, recs] : recs is a sequence of [from, to] byte positions (1-based, inclusive)
 RECURSIVE UnpackFrom(_, _, _, _)
